@@ -227,15 +227,26 @@ Qed.
    removes a coroutine object *)
 Lemma step_tr : forall o s j, Inv s ->
   tr (stof s j) (stof (fst (step o s)) j) /\
-  (stof (fst (step o s)) j = None -> stof s j <> None -> o = ODestroy j).
+  (stof (fst (step o s)) j = None -> stof s j <> None -> o = ODestroy j \/ o = OClose j).
 Proof.
   intros o s j I.
   assert (K : forall s', trk (stof s j) (stof s' j) ->
-              tr (stof s j) (stof s' j) /\ (stof s' j = None -> stof s j <> None -> o = ODestroy j)).
+              tr (stof s j) (stof s' j) /\ (stof s' j = None -> stof s j <> None -> o = ODestroy j \/ o = OClose j)).
   { intros s' (T & N). split; [exact T|]. intros A B. exfalso. apply B. apply N. exact A. }
   assert (KS : forall s', same_ctl s s' ->
-              tr (stof s j) (stof s' j) /\ (stof s' j = None -> stof s j <> None -> o = ODestroy j)).
+              tr (stof s j) (stof s' j) /\ (stof s' j = None -> stof s j <> None -> o = ODestroy j \/ o = OClose j)).
   { intros s' S'. apply K. rewrite (same_ctl_stof _ _ S' j). apply trk_same. }
+  assert (D : forall k r s1, co_destroy k s = (r, s1) ->
+              tr (stof s j) (stof s1 j) /\ (j <> k -> stof s1 j = stof s j)).
+  { intros k r s1 R. unfold co_destroy in R.
+    destruct (gcon s && DESTROY_UNREGISTERS_FIRST).
+    - destruct (gc_unregister k s) as [s0|] eqn:U; [|inversion R; subst; split; [constructor|reflexivity]].
+      pose proof (gc_unregister_same _ _ _ U) as S0.
+      destruct (mco_destroy k s0) as [e s2] eqn:Dd. inversion R; subst.
+      rewrite <- (same_ctl_stof _ _ S0 j).
+      eapply mco_destroy_tr; [eapply same_ctl_Inv; eauto|exact Dd].
+    - destruct (mco_destroy k s) as [e s2] eqn:Dd. inversion R; subst.
+      eapply mco_destroy_tr; eauto. }
   unfold step. destruct (halted s); [apply K, trk_same|].
   destruct o.
   - destruct (get k (cos s)) eqn:G; simpl; [apply K, trk_same|].
@@ -276,20 +287,15 @@ Proof.
       * simpl. apply KS. apply set_depth_same. assumption.
     + destruct (Nat.eqb (mdepth s) 0); simpl; [apply K, trk_same|]. apply KS. apply same_ctl_mdepth.
   - (* destroy *)
-    assert (D : forall r s1, co_destroy k s = (r, s1) ->
-                tr (stof s j) (stof s1 j) /\ (j <> k -> stof s1 j = stof s j)).
-    { intros r s1 R. unfold co_destroy in R.
-      destruct (gcon s && DESTROY_UNREGISTERS_FIRST).
-      - destruct (gc_unregister k s) as [s0|] eqn:U; [|inversion R; subst; split; [constructor|reflexivity]].
-        pose proof (gc_unregister_same _ _ _ U) as S0.
-        destruct (mco_destroy k s0) as [e s2] eqn:Dd. inversion R; subst.
-        rewrite <- (same_ctl_stof _ _ S0 j).
-        eapply mco_destroy_tr; [eapply same_ctl_Inv; eauto|exact Dd].
-      - destruct (mco_destroy k s) as [e s2] eqn:Dd. inversion R; subst.
-        eapply mco_destroy_tr; eauto. }
-    destruct (co_destroy k s) as [r s1] eqn:R. destruct (D r s1 eq_refl) as (T & F).
-    assert (X : tr (stof s j) (stof s1 j) /\ (stof s1 j = None -> stof s j <> None -> ODestroy k = ODestroy j)).
-    { split; [exact T|]. intros A B. destruct (Nat.eq_dec j k) as [->|Nq]; [reflexivity|].
+    destruct (co_destroy k s) as [r s1] eqn:R. destruct (D k r s1 R) as (T & F).
+    assert (X : tr (stof s j) (stof s1 j) /\ (stof s1 j = None -> stof s j <> None -> ODestroy k = ODestroy j \/ ODestroy k = OClose j)).
+    { split; [exact T|]. intros A B. destruct (Nat.eq_dec j k) as [->|Nq]; [left; reflexivity|].
+      exfalso. apply B. rewrite <- (F Nq). exact A. }
+    destruct r; simpl; exact X.
+  - (* close *)
+    destruct (co_destroy k s) as [r s1] eqn:R. destruct (D k r s1 R) as (T & F).
+    assert (X : tr (stof s j) (stof s1 j) /\ (stof s1 j = None -> stof s j <> None -> OClose k = ODestroy j \/ OClose k = OClose j)).
+    { split; [exact T|]. intros A B. destruct (Nat.eq_dec j k) as [->|Nq]; [right; reflexivity|].
       exfalso. apply B. rewrite <- (F Nq). exact A. }
     destruct r; simpl; exact X.
   - simpl. apply K, trk_same.
@@ -300,7 +306,7 @@ Qed.
 
 (* Dead is absorbing: a dead coroutine stays dead until destroy removes it *)
 Lemma dead_absorbing : forall o s j, Inv s -> stof s j = Some Dead ->
-  stof (fst (step o s)) j = Some Dead \/ (stof (fst (step o s)) j = None /\ o = ODestroy j).
+  stof (fst (step o s)) j = Some Dead \/ (stof (fst (step o s)) j = None /\ (o = ODestroy j \/ o = OClose j)).
 Proof.
   intros o s j I D. destruct (step_tr o s j I) as (T & R). rewrite D in T, R.
   inversion T; subst.
